@@ -6,6 +6,7 @@ import (
 	"strings"
 
 	"github.com/gopher-fleece/gleece/v2/common"
+	"github.com/gopher-fleece/gleece/v2/core/annotations"
 	"github.com/gopher-fleece/gleece/v2/core/arbitrators"
 	"github.com/gopher-fleece/gleece/v2/core/metadata"
 	"github.com/gopher-fleece/gleece/v2/core/validators/diagnostics"
@@ -67,7 +68,11 @@ func (v ReceiverValidator) Validate() (diagnostics.EntityDiagnostic, error) {
 	}
 	receiverDiag.AddDiagnosticIfNotNil(secDiag)
 
-	linkValidator, err := NewAnnotationLinkValidator(v.receiver)
+	var controllerAnnotations *annotations.AnnotationHolder
+	if v.parentController != nil {
+		controllerAnnotations = v.parentController.Struct.Annotations
+	}
+	linkValidator, err := NewAnnotationLinkValidatorForController(v.receiver, controllerAnnotations)
 	if err != nil {
 		return receiverDiag, fmt.Errorf("failed to construct an annotation link validator - %v", err)
 	}
